@@ -473,6 +473,15 @@ def parse_cbmc_json(out):
     return res, goals, msgs
 
 
+def tier_bound(u, tier):
+    """loop:Q/T -> loop:Q in quick, loop:T in thorough"""
+    name, _, b = u.rpartition(':')
+    if '/' in b:
+        q, t = b.split('/')
+        b = t if tier == 'thorough' else q
+    return name + ':' + b
+
+
 def run_function(ub, fs, tier='quick', solver=None, extra_defs=()):
     """goto-cc, unwind, dfcc, cbmc for one function under contract."""
     us = ub.spec
@@ -484,7 +493,7 @@ def run_function(ub, fs, tier='quick', solver=None, extra_defs=()):
     R = dict(function=fs.name, unit=us.name, cmds=[], obligations=[], seconds={}, status='ok', covers=None,
              bounded=fs.bounded, property=fs.property)
     harness = 'h_' + fs.name
-    repl_defs = ['-DVERIF_REPLACING_%s' % g for g in fs.replace] + ['-D' + x for x in fs.defines]
+    repl_defs = ['-DVERIF_REPLACING_%s' % g for g in fs.replace] + ['-D' + x for x in fs.defines] + (['-DVERIF_TIER_THOROUGH'] if tier == 'thorough' else [])
     cmd = ['goto-cc', '-DVERIF_CBMC', '-I' + VERIF] + ['-D' + x for x in extra_defs] + repl_defs + us.cflags + ['--function', harness, ub.cfile, '-o', gb0]
     rc, so, se, t = sh(cmd, timeout=120)
     R['cmds'].append(' '.join(cmd))
@@ -492,8 +501,9 @@ def run_function(ub, fs, tier='quick', solver=None, extra_defs=()):
     if rc != 0:
         raise Undecided('sidecar-binding-broken', 'goto-cc failed for %s:\n%s' % (fs.name, (so + se)[-3000:]))
     cur = gb0
+    uw = [tier_bound(u, tier) for u, _ in fs.unwind]
     if fs.unwind:
-        cmd = ['goto-instrument', '--unwindset', ','.join(u for u, _ in fs.unwind), '--unwinding-assertions', cur, gb1]
+        cmd = ['goto-instrument', '--unwindset', ','.join(uw), '--unwinding-assertions', cur, gb1]
         rc, so, se, t = sh(cmd, timeout=300)
         R['cmds'].append(' '.join(cmd))
         R['seconds']['unwind'] = t
@@ -523,7 +533,7 @@ def run_function(ub, fs, tier='quick', solver=None, extra_defs=()):
         sflags = ['--external-sat-solver', 'kissat']
     else:
         sflags = ['--sat-solver', slv]
-    to = fs.timeout or (180 if tier == 'quick' else 1200)
+    to = (fs.timeout if tier == 'quick' else max(fs.timeout, 3000)) if fs.timeout else (180 if tier == 'quick' else 1200)
     cmd = ['cbmc'] + sflags + CBMC_CHECKS + fs.flags + ['--json-ui', gb2]
     rc, so, se, t = sh(cmd, timeout=to)
     R['cmds'].append(' '.join(cmd))
@@ -564,7 +574,7 @@ def run_function(ub, fs, tier='quick', solver=None, extra_defs=()):
         rc, so, se, t = sh(cmd, timeout=120)
         curv = gbv0
         if rc == 0 and fs.unwind:
-            rc, so, se, t = sh(['goto-instrument', '--unwindset', ','.join(u for u, _ in fs.unwind), '--unwinding-assertions', curv, gbv1], timeout=300)
+            rc, so, se, t = sh(['goto-instrument', '--unwindset', ','.join(uw), '--unwinding-assertions', curv, gbv1], timeout=300)
             curv = gbv1
         if rc == 0:
             cmd = ['goto-instrument', '--dfcc', harness]
